@@ -394,6 +394,59 @@ fn main() {
         t
     });
 
+    // ---- S7: limb patterns across a scale shift: b = ceil(L / 10^g) for every 64-bit limb pattern L over
+    // {0, 1, 2^63, MAX-1, MAX} (3 limbs; 4 in the thorough tier), so that the SHIFTED operand b*10^g has those
+    // limbs (all-ones / zero / single-bit words) above the lowest one; a = limb patterns over {0, 1, MAX} at the
+    // finer scale: every carry / borrow chain across word boundaries of an aligned addition or subtraction
+    let limb_vals: [u64; 5] = [0, 1, 1 << 63, u64::MAX - 1, u64::MAX];
+    let nl: usize = tier.pick(3, 4);
+    let mut lpat: Vec<BigInt> = vec![];
+    for code in 0..5usize.pow(nl as u32) {
+        let mut c = code;
+        let mut v = BigInt::zero();
+        let mut top = 0u64;
+        for j in 0..nl {
+            top = limb_vals[c % 5];
+            v += BigInt::from(top) << (64 * j);
+            c /= 5;
+        }
+        if top != 0 {
+            lpat.push(v);
+        }
+    }
+    let mut apat: Vec<BigInt> = vec![];
+    for code in 1..27usize {
+        let mut c = code;
+        let mut v = BigInt::zero();
+        for j in 0..3 {
+            v += BigInt::from([0u64, 1, u64::MAX][c % 3]) << (64 * j);
+            c /= 3;
+        }
+        apat.push(v);
+    }
+    let s7g: Vec<u64> = (1..=22).chain([38, 39]).collect();
+    run.bound("S7_limb_patterns", lpat.len());
+    run.bound("S7_gaps", json!(s7g));
+    run.par("S7 limb patterns across a scale shift", lpat.len(), |i| {
+        let mut t = Tally::default();
+        for &g in s7g.iter() {
+            let p = pow10(g);
+            let b0 = (&lpat[i] + &p - 1) / &p;
+            for a0 in apat.iter() {
+                for (sa, sb) in [(1, 1), (-1, -1), (1, -1)] {
+                    let a = Dec { n: a0 * sa, s: g as i128 };
+                    let b = Dec { n: &b0 * sb, s: 0 };
+                    let (xa, xb) = (bd(&a), bd(&b));
+                    t.states += 1;
+                    t.nontrivial += 2 * ds.len() as u64;
+                    check_pair(&run, &ds, &is, &xa, &xb, &a, &b, &mut t);
+                    check_pair(&run, &ds, &is, &xb, &xa, &b, &a, &mut t);
+                }
+            }
+        }
+        t
+    });
+
     // ---- S5: operands m*2^a*5^b against the shortcut operands (one in several spellings, zero, two, ten) ----
     let ab: Vec<u32> = tier.pick(vec![0, 1, 2, 26, 27, 28, 53, 54, 55, 56, 63, 64, 65, 81, 82, 108, 109, 120], (0..=124).collect());
     let tf = two_five_ints(&ab, &ab, &[1, -3]);
